@@ -38,8 +38,8 @@ func layoutFor(tier string) layout {
 	l := layout{
 		singlePerKind:   vlib.TierN(tier, 3, 30),
 		nEnum:           len(enumChains) / chainsPerCase,
-		nRandom:         vlib.TierN(tier, 96, 4000),
-		nDelay:          vlib.TierN(tier, 96, 4000),
+		nRandom:         vlib.TierN(tier, 96, 16000),
+		nDelay:          vlib.TierN(tier, 96, 16000),
 		nThrottle:       vlib.TierN(tier, 48, 320),
 		scriptsPerChain: vlib.TierN(tier, 8, 240),
 	}
